@@ -45,6 +45,11 @@ func (b *BucketSpec) Buckets() tally.Buckets {
 	return out
 }
 
+// empty reports a specification that is not nil but has no bounds.
+func (b *BucketSpec) empty() bool {
+	return b != nil && !b.Nil && len(b.Bits) == 0 && len(b.Durs) == 0
+}
+
 func specOf(b tally.Buckets) *BucketSpec {
 	switch v := b.(type) {
 	case nil:
@@ -377,6 +382,8 @@ func (te *taskEnv) exec(op *Op, rec *OpRec) {
 		case "hist":
 			if op.N > 0 && op.N <= len(env.sharedSpecs) {
 				caller = env.sharedSpecs[op.N-1]
+			} else if op.Str == "empty" {
+				caller = tally.ValueBuckets{}
 			} else if op.N == -1 && op.B != nil && !op.B.Nil {
 				n0 := te.reused
 				caller = te.reuseBuf(op.B)
@@ -387,7 +394,7 @@ func (te *taskEnv) exec(op *Op, rec *OpRec) {
 				caller = op.B.Buckets()
 			}
 			mv.obj = s.sc.Histogram(op.Name, caller)
-			if caller != nil && !reflect.DeepEqual(specOf(caller), specOfShared(env, op)) {
+			if caller != nil && op.Str != "empty" && !reflect.DeepEqual(specOf(caller), specOfShared(env, op)) {
 				rec.Err = "caller's bucket slice modified by Histogram()"
 			}
 		}
